@@ -7,7 +7,7 @@
    Go's math package, not theorems. *)
 From Coq Require Import Reals List ZArith.
 From Interval Require Import Interval.Interval Real.Xreal.
-From V Require Import Ival IvalProofs AbsBits.
+From V Require Import Ival IvalProofs AbsBits C10PerElement.
 Open Scope R_scope.
 
 Notation "b ∋ x" := (contains (I.convert b) (Xreal x)) (at level 70).
@@ -67,3 +67,22 @@ Example C10_nonvacuous :
   | Some p => res_in W32 1063761868 (widen W32 8 (r_tanh p)) = true /\ res_in W32 (1063761868 + 64) (widen W32 8 (r_tanh p)) = false
   | None => False end.
 Proof. vm_compute. split; reflexivity. Qed.
+
+(* "per element": S accepts a float result of a unary operator exactly when it has the input's element
+   type and shape and output element i passes the test for the named function at input element i ALONE
+   (elem_judged: the special-value rule or the widened enclosure above) -- for every operator name,
+   every tensor of any rank; Print Assumptions lists only the primitive 63-bit integer operations that the Interval library computes with (the statement mentions its enclosures), no logical axiom *)
+Theorem C10_judged_per_element op x o w :
+  OpCheck.wf_tval x = true -> CheckC10.fw_of (Case.dt x) = Some w ->
+  (CheckC10.judge_unary op x (Case.OOk (cons (Some o) nil)) = 0%Z <->
+   Case.dt o = Case.dt x /\ Case.sh o = Case.sh x /\ List.length (Case.pl o) = List.length (Case.pl x) /\
+   forall i xi oi, nth_error (Case.pl x) i = Some xi -> nth_error (Case.pl o) i = Some oi -> elem_judged op w xi oi = true).
+Proof. exact (judged_per_element op x o w). Qed.
+Print Assumptions C10_judged_per_element.
+
+(* ... hence the judgement does not depend on the order of the elements (the implementation's side of
+   this is the harness observation element_order_independence) *)
+Theorem C10_judgement_order_independent op x o w :
+  OpCheck.wf_tval x = true -> CheckC10.fw_of (Case.dt x) = Some w ->
+  CheckC10.judge_unary op (rev_payload x) (Case.OOk (cons (Some (rev_payload o)) nil)) = CheckC10.judge_unary op x (Case.OOk (cons (Some o) nil)).
+Proof. exact (judged_order_independent op x o w). Qed.
